@@ -428,16 +428,24 @@ def replay(rep, verbose=False):
             cand = list(As)
             if As[0] is not None and family in ("K1", "n1", "K=n-onehot", "uniform", "dup-clusters"):
                 cand += [a for a in cg.affinity_candidates(gk, P.shape[0], As[0])[1:]]
-            for A in cand:
+            # the family at its own size, then the same rows repeated to a long input (the family is still degenerate in the same way;
+            # float underflow / overflow of products and sums over the samples only shows there -- exact arithmetic cannot see it)
+            trials = [(P, A) for A in cand]
+            if family != "n1":
+                r = -(-96 // P.shape[0])
+                for A in cand[:2]:
+                    trials.append((np.tile(P, (r, 1)), None if A is None else np.tile(A, (r, r))))
+            for Pt, A in trials:
                 try:
-                    S, G = gem.evaluate(P.copy(), None if A is None else A.copy(), return_grad=True)
+                    S, G = gem.evaluate(Pt.copy(), None if A is None else A.copy(), return_grad=True)
+                    S0 = gem.evaluate(Pt.copy(), None if A is None else A.copy())
                 except Exception as e:
                     if verbose:
                         print("raised", type(e).__name__, e)
                     return True
-                ok = np.isfinite(S) and np.all(np.isfinite(np.asarray(G, dtype=float)))
+                ok = np.isfinite(S) and np.isfinite(S0) and np.all(np.isfinite(np.asarray(G, dtype=float)))
                 if verbose:
-                    print("P", P.tolist(), "A", None if A is None else A.tolist(), "score", S, "grad", np.asarray(G).tolist())
+                    print(f"{Pt.shape[0]} rows;", "P", Pt.tolist() if len(Pt) <= 4 else "(rows of the family repeated)", "score", S, S0, "gradient finite:", bool(np.all(np.isfinite(np.asarray(G, dtype=float)))))
                 if not ok:
                     return True
             return False
